@@ -1,6 +1,7 @@
 from mindsdb_sql import OrderBy
 from mindsdb_sql.exceptions import PlanningException
-from mindsdb_sql.parser.ast import Identifier, Operation, BinaryOperation, BetweenOperation, Tuple
+from mindsdb_sql.parser.ast import Identifier, Operation, BinaryOperation, BetweenOperation, Tuple, Select
+from mindsdb_sql.parser.ast.base import ASTNode
 
 
 def find_time_filter(op, time_column_name):
@@ -50,6 +51,21 @@ def find_and_remove_time_filter(op, time_filter):
     return op
 
 
+def find_nested_columns(node):
+    """Columns used inside a node (CAST, CASE, ...). A sub-select is a scope of its own and is not entered."""
+    found = []
+    if isinstance(node, Identifier):
+        found.append(node)
+    elif isinstance(node, (list, tuple)):
+        for item in node:
+            found.extend(find_nested_columns(item))
+    elif isinstance(node, ASTNode) and not isinstance(node, Select):
+        for name, value in vars(node).items():
+            if name != 'alias':
+                found.extend(find_nested_columns(value))
+    return found
+
+
 def validate_ts_where_condition(op, allowed_columns, allow_and=True):
     """Error if the where condition caontains invalid ops, is nested or filters on some column that's not time or partition"""
     if not op:
@@ -69,13 +85,20 @@ def validate_ts_where_condition(op, allowed_columns, allow_and=True):
         else:
             args.append(arg)
 
+    columns = []
     for arg in args:
         if isinstance(arg, Identifier):
-            if arg.parts[-1].lower() not in allowed_columns:
-                raise PlanningException(
-                    f'For time series predictor only the following columns are allowed in WHERE: {str(allowed_columns)}, found instead: {str(arg)}.')
-            # remove alias
-            arg.parts = [arg.parts[-1]]
+            columns.append(arg)
+        elif not isinstance(arg, Operation):
+            # a column can also sit inside an operand that is not an operation itself: CAST(col AS type), CASE ...
+            columns.extend(find_nested_columns(arg))
+
+    for arg in columns:
+        if arg.parts[-1].lower() not in allowed_columns:
+            raise PlanningException(
+                f'For time series predictor only the following columns are allowed in WHERE: {str(allowed_columns)}, found instead: {str(arg)}.')
+        # remove alias
+        arg.parts = [arg.parts[-1]]
 
     for arg in args:
         if isinstance(arg, Operation):
